@@ -4,6 +4,7 @@ go 1.23.0
 
 require (
 	github.com/aclements/go-moremath v0.0.0-20210112150236-f10218a38794
+	github.com/mattn/go-sqlite3 v1.14.14
 	golang.org/x/perf v0.0.0
 )
 
@@ -21,7 +22,6 @@ require (
 	github.com/gonum/lapack v0.0.0-20181123203213-e4cdc5a0bff9 // indirect
 	github.com/gonum/matrix v0.0.0-20181209220409-c518dec07be9 // indirect
 	github.com/google/safehtml v0.0.2 // indirect
-	github.com/mattn/go-sqlite3 v1.14.14 // indirect
 	golang.org/x/image v0.26.0 // indirect
 	golang.org/x/net v0.39.0 // indirect
 	golang.org/x/text v0.24.0 // indirect
